@@ -295,6 +295,40 @@ def g_json(R, rng, n):
             C.call_spec(R, "json", ep, [G.json_spec(m)], kwargs, fn=fn, consumers=not kwargs)
 
 
+def _taproot_json_docs():
+    """to_dict() forms of a PsbtOut with a two-leaf taproot tree and of a PsbtIn with a taproot leaf script: the two
+    records whose ints (depth, leaf version) are written on ONE byte each; the vendored psbts carry neither."""
+    from btclib.psbt.psbt_in import PsbtIn
+    from btclib.psbt.psbt_out import PsbtOut
+    cb = "c0" + "11" * 32
+    return [("PsbtOut", PsbtOut(taproot_tree=[(1, 0xC0, "51"), (1, 0xC0, "52")]).to_dict()),
+            ("PsbtIn", PsbtIn(taproot_leaf_scripts={cb: ("51", 0xC0)}).to_dict())]
+
+
+def g_json_intfields(R, rng, n):
+    """every int position of the taproot records of a psbt map x every boundary value and near-int type; what
+    from_dict accepts goes on to the consumers (serialize, to_dict, ...), which is where a value that has no
+    one-byte spelling used to leave through OverflowError / AttributeError"""
+    vals = [-1, 0, 1, 0xC0, 0xFF, 0x100, 0xFFFF, 2**32, 2**64, -(2**63), 1.0, 192.0, 1.5, float("inf"), "1", "c0",
+            True, None, [], {}]
+    done = 0
+    for name, doc in _taproot_json_docs():
+        ep, fn = _class_ep(name, "from_dict")
+        for key in ("taproot_tree", "taproot_leaf_scripts"):
+            if not doc.get(key):
+                continue
+            for p in G.json_paths(doc[key], (key,)):
+                tgt = doc
+                for k in p:
+                    tgt = tgt[k]
+                if not isinstance(tgt, int) or isinstance(tgt, bool):
+                    continue
+                for v in vals:
+                    C.call_spec(R, "json.intfields", ep, [G.json_spec(G.json_set(doc, p, v))], {}, fn=fn, consumers=True)
+                    done += 1
+    return done
+
+
 def json_every_key(R, name, limit=3):
     """thorough: a value of every wrong type at EVERY key of the seed documents"""
     ep, fn = _class_ep(name, "from_dict")
@@ -810,6 +844,6 @@ def g_matrix(R, rng, n):
 
 GROUPS = {
     "matrix": g_matrix,
-    "binary": g_binary_classes, "binfunc": g_binary_funcs, "text": g_text, "json": g_json, "jsonfunc": g_json_funcs,
+    "binary": g_binary_classes, "binfunc": g_binary_funcs, "text": g_text, "json": g_json, "jsonint": g_json_intfields, "jsonfunc": g_json_funcs,
     "pred": g_pred, "generic": g_generic, "deep": g_deep, "psbtdegenerate": g_psbt_degenerate, "msdecode": g_ms_decode, "coreimport": g_core_import, "textcodec": g_textcodec, "witness": g_witness_consumers,
 }
